@@ -32,6 +32,23 @@ import (
 	rt "golang.org/x/telemetry/internal/verifrt"
 )
 
+// c12SplitDirs separates directory entries (trailing slash) from files.
+func c12SplitDirs(paths []string) (files, dirs []string) {
+	files, dirs = []string{}, []string{}
+	for _, p := range paths {
+		if strings.HasSuffix(p, "/") {
+			dirs = append(dirs, p)
+		} else {
+			files = append(files, p)
+		}
+	}
+	return
+}
+
+// c12Levels puts the storage root a few levels below the directory whose tree
+// is compared, so that names escaping upwards stay visible.
+const c12Levels = "l1/l2/l3"
+
 // independent mirror of the documented report layout
 type vProgram struct {
 	Program   string
@@ -68,6 +85,8 @@ func vNormalize(r *vReport) {
 	}
 }
 
+// c12Snapshot lists the complete tree below dir: files as relative path ->
+// content, directories as relative path + "/" -> nil.
 func c12Snapshot(dir string) map[string][]byte {
 	out := map[string][]byte{}
 	filepath.WalkDir(dir, func(p string, d fs.DirEntry, err error) error {
@@ -77,6 +96,9 @@ func c12Snapshot(dir string) map[string][]byte {
 		rel, _ := filepath.Rel(dir, p)
 		rel = filepath.ToSlash(rel)
 		if d.IsDir() {
+			if rel != "." {
+				out[rel+"/"] = nil
+			}
 			return nil
 		}
 		data, _ := os.ReadFile(p)
@@ -148,7 +170,7 @@ func TestVerifC12(t *testing.T) {
 		t.Fatal(err)
 	}
 	defer os.RemoveAll(parent)
-	root := filepath.Join(parent, "root")
+	root := filepath.Join(parent, filepath.FromSlash(c12Levels), "root")
 	os.MkdirAll(root, 0777)
 	os.WriteFile(filepath.Join(parent, "sentinel"), []byte("outside the storage root"), 0666)
 	os.WriteFile(filepath.Join(root, "sentinel"), []byte("inside the root, outside every bucket"), 0666)
@@ -157,7 +179,7 @@ func TestVerifC12(t *testing.T) {
 	cfg.ProjectID = ""
 	cfg.UploadConfig = cfgfile
 	limit = cfg.MaxRequestBytes
-	uploadPrefix = "root/" + cfg.UploadBucket + "/"
+	uploadPrefix = c12Levels + "/root/" + cfg.UploadBucket + "/"
 	handler := newHandler(ctx, cfg)
 	os.WriteFile(filepath.Join(root, cfg.MergedBucket, "sentinel.json"), []byte("in another bucket"), 0666)
 	pristine := c12Snapshot(parent)
@@ -175,12 +197,21 @@ func TestVerifC12(t *testing.T) {
 			// something outside the bucket was left behind by an earlier behaviour
 			// (already reported there); rebuild the tree
 			now := c12Snapshot(parent)
+			var extra []string
 			for p := range now {
 				if _, ok := pristine[p]; !ok {
-					os.Remove(filepath.Join(parent, filepath.FromSlash(p)))
+					extra = append(extra, p)
 				}
 			}
+			sort.Sort(sort.Reverse(sort.StringSlice(extra))) // children before their directories
+			for _, p := range extra {
+				os.Remove(filepath.Join(parent, filepath.FromSlash(p)))
+			}
 			for p, d := range pristine {
+				if strings.HasSuffix(p, "/") {
+					os.MkdirAll(filepath.Join(parent, filepath.FromSlash(p)), 0777)
+					continue
+				}
 				os.MkdirAll(filepath.Dir(filepath.Join(parent, filepath.FromSlash(p))), 0777)
 				os.WriteFile(filepath.Join(parent, filepath.FromSlash(p)), d, 0666)
 			}
@@ -260,12 +291,17 @@ func TestVerifC12(t *testing.T) {
 			sort.Strings(created)
 			sort.Strings(changed)
 			sort.Strings(removed)
-			out["created"], out["changed"], out["removed"] = created, changed, removed
 			for _, p := range append(append(append([]string{}, created...), changed...), removed...) {
 				if !strings.HasPrefix(p, uploadPrefix) {
 					dirty = true
 				}
 			}
+			// directories are reported apart from files
+			var dirsCreated, dirsRemoved []string
+			created, dirsCreated = c12SplitDirs(created)
+			removed, dirsRemoved = c12SplitDirs(removed)
+			out["created"], out["changed"], out["removed"] = created, changed, removed
+			out["dirs_created"], out["dirs_removed"] = dirsCreated, dirsRemoved
 			// what was stored: decode with the independent mirror and compare with the
 			// same decoding of the request body (first JSON value)
 			stored := []rt.M{}
@@ -300,14 +336,22 @@ func TestVerifC12(t *testing.T) {
 				stored = append(stored, s)
 			}
 			out["stored"] = stored
-			listing := []string{}
+			listing, dirs := []string{}, []string{}
 			for p := range after {
 				if strings.HasPrefix(p, uploadPrefix) {
-					listing = append(listing, p)
+					if strings.HasSuffix(p, "/") {
+						if p != uploadPrefix {
+							dirs = append(dirs, p)
+						}
+					} else {
+						listing = append(listing, p)
+					}
 				}
 			}
 			sort.Strings(listing)
+			sort.Strings(dirs)
 			out["listing"] = listing
+			out["dirs"] = dirs // every directory below the bucket directory
 			// every object of the bucket that decodes to the report of this request
 			matches := []string{}
 			var want vReport
